@@ -202,7 +202,9 @@ def worker(args):
     for _ in range(1 if tier == "quick" else 6):
         sysjet.c11_scenario(rep, binary, work, rng, rand_frame)
     rep.assumptions.append("system level: jet1090 --df-filter/--aircraft-filter -o FILE -v over a loopback Beast feed; every record on stdout must "
-                           "satisfy the predicate on its own displayed fields and the file must hold the same records; absences are not judged")
+                           "satisfy the predicate on its own displayed fields and the file must hold the same records; a decodable frame passing the filters that "
+                           "is absent although frames sent after it on the same feed came out is a wrong drop (arrival and window closing are FIFO on one "
+                           "feed), other absences are not judged")
     return rep.to_dict()
 
 
